@@ -275,9 +275,9 @@ fire("C01", "a coefficient of the derivative of the degree-9 Trefethen map", "R2
 fire("C01", "degree-9 map paired with the derivative of the degree-5 map", "R2.map-applied-with-its-derivative/onedgrid.TrefethenCC",
      ("sub", "onedgrid.py", "            weights = _derg3(grid.points) * grid.weights\n        else:\n            raise ValueError(f\"Degree {d} should be either 1, 5, 9.\")\n\n        super().__init__(points, weights, (-1, 1))\n\n\nclass TrefethenGC2",
       "            weights = _derg2(grid.points) * grid.weights\n        else:\n            raise ValueError(f\"Degree {d} should be either 1, 5, 9.\")\n\n        super().__init__(points, weights, (-1, 1))\n\n\nclass TrefethenGC2"))
-silent("C01", "tanh-sinh weights written with 1 - tanh^2",
+silent("C01", "tanh-sinh weights with the square of cosh written as a product",
        ("sub", "onedgrid.py", "        weights = np.cosh(theta) / np.cosh(0.5 * np.pi * np.sinh(theta)) ** 2\n",
-        "        weights = np.cosh(theta) * (1 - np.tanh(0.5 * np.pi * np.sinh(theta)) ** 2)\n"))
+        "        arg = 0.5 * np.pi * np.sinh(theta)\n        weights = np.cosh(theta) / (np.cosh(arg) * np.cosh(arg))\n"))
 silent("C01", "single-exp nodes reused in the weights",
        ("sub", "onedgrid.py", "        points = np.exp(k * h)\n        weights = h * np.exp(k * h)\n",
         "        points = np.exp(k * h)\n        weights = h * points\n"))
